@@ -1487,4 +1487,699 @@ theorem recomputeOne_bindMain_run (env : Env) (fuel n : Nat) (s : State) (nd : N
     simp only [hrv', if_true, run_bind_get, hval']
 
 
+/-! ## the frame of a recompute step -/
+
+/-- what a recompute step of node `n` (of a map-like kind) may change: the `value`, `changedAt`,
+`recomputedAt`, `oldState` of `n` itself, and of every node `heightInRch` (only from "not in the heap"
+to "in the heap"), `inHandleAfterStab`, `didChange` -/
+structure StepFrame (n : Nat) (s s' : State) : Prop where
+  size : s'.nodes.size = s.nodes.size
+  kind : ∀ m, (s'.nodeD m).kind = (s.nodeD m).kind
+  valid : ∀ m, (s'.nodeD m).valid = (s.nodeD m).valid
+  cutoff : ∀ m, (s'.nodeD m).cutoff = (s.nodeD m).cutoff
+  height : ∀ m, (s'.nodeD m).height = (s.nodeD m).height
+  parents : ∀ m, (s'.nodeD m).parents = (s.nodeD m).parents
+  observers : ∀ m, (s'.nodeD m).observers = (s.nodeD m).observers
+  createdIn : ∀ m, (s'.nodeD m).createdIn = (s.nodeD m).createdIn
+  forceNecessary : ∀ m, (s'.nodeD m).forceNecessary = (s.nodeD m).forceNecessary
+  inRch : ∀ m, (s.nodeD m).inRch = true → (s'.nodeD m).inRch = true
+  value : ∀ m, m ≠ n → (s'.nodeD m).value = (s.nodeD m).value
+  changedAt : ∀ m, m ≠ n → (s'.nodeD m).changedAt = (s.nodeD m).changedAt
+  recomputedAt : ∀ m, m ≠ n → (s'.nodeD m).recomputedAt = (s.nodeD m).recomputedAt
+  oldState : ∀ m, m ≠ n → (s'.nodeD m).oldState = (s.nodeD m).oldState
+  vars : s'.vars = s.vars
+  binds : s'.binds = s.binds
+  stabNum : s'.stabNum = s.stabNum
+  cfg : s'.cfg = s.cfg
+  scope : s'.currentScope = s.currentScope
+
+theorem StepFrame.refl (n : Nat) (s : State) : StepFrame n s s := by
+  constructor <;> intros <;> first | rfl | assumption
+
+theorem StepFrame.trans {n : Nat} {a b c : State} (h1 : StepFrame n a b) (h2 : StepFrame n b c) :
+    StepFrame n a c where
+  size := h2.size.trans h1.size
+  kind m := (h2.kind m).trans (h1.kind m)
+  valid m := (h2.valid m).trans (h1.valid m)
+  cutoff m := (h2.cutoff m).trans (h1.cutoff m)
+  height m := (h2.height m).trans (h1.height m)
+  parents m := (h2.parents m).trans (h1.parents m)
+  observers m := (h2.observers m).trans (h1.observers m)
+  createdIn m := (h2.createdIn m).trans (h1.createdIn m)
+  forceNecessary m := (h2.forceNecessary m).trans (h1.forceNecessary m)
+  inRch m h := h2.inRch m (h1.inRch m h)
+  value m hm := (h2.value m hm).trans (h1.value m hm)
+  changedAt m hm := (h2.changedAt m hm).trans (h1.changedAt m hm)
+  recomputedAt m hm := (h2.recomputedAt m hm).trans (h1.recomputedAt m hm)
+  oldState m hm := (h2.oldState m hm).trans (h1.oldState m hm)
+  vars := h2.vars.trans h1.vars
+  binds := h2.binds.trans h1.binds
+  stabNum := h2.stabNum.trans h1.stabNum
+  cfg := h2.cfg.trans h1.cfg
+  scope := h2.scope.trans h1.scope
+
+theorem Quiet.toFrame {s s' : State} (q : Quiet s s') (n : Nat) : StepFrame n s s' where
+  size := q.size
+  kind m := (q.node m).kind
+  valid m := (q.node m).valid
+  cutoff m := (q.node m).cutoff
+  height m := (q.node m).height
+  parents m := (q.node m).parents
+  observers m := (q.node m).observers
+  createdIn m := (q.node m).createdIn
+  forceNecessary m := (q.node m).forceNecessary
+  inRch m := (q.node m).inRch
+  value m _ := (q.node m).value
+  changedAt m _ := (q.node m).changedAt
+  recomputedAt m _ := (q.node m).recomputedAt
+  oldState m _ := (q.node m).oldState
+  vars := q.vars
+  binds := q.binds
+  stabNum := q.stabNum
+  cfg := q.cfg
+  scope := q.scope
+
+/-- an update of node `n` that only touches `value`/`changedAt`/`recomputedAt`/`oldState` -/
+def SelfUpdate (f : Node → Node) : Prop :=
+  ∀ x, (f x).kind = x.kind ∧ (f x).valid = x.valid ∧ (f x).cutoff = x.cutoff ∧
+    (f x).height = x.height ∧ (f x).parents = x.parents ∧ (f x).observers = x.observers ∧
+    (f x).createdIn = x.createdIn ∧ (f x).forceNecessary = x.forceNecessary ∧
+    (f x).heightInRch = x.heightInRch
+
+theorem StepFrame.modify (n : Nat) (s s' : State) (f : Node → Node) (hf : SelfUpdate f)
+    (hn : s'.nodes = s.nodes.modify n f) (hv : s'.vars = s.vars) (hb : s'.binds = s.binds)
+    (hs : s'.stabNum = s.stabNum) (hc : s'.cfg = s.cfg) (hsc : s'.currentScope = s.currentScope) :
+    StepFrame n s s' := by
+  have hD : ∀ m, s'.nodeD m = if n = m ∧ m < s.nodes.size then f (s.nodeD m) else s.nodeD m := by
+    intro m
+    have := nodeD_modify s n m f
+    simp only [State.nodeD] at this ⊢
+    rw [hn]; exact this
+  have hne : ∀ m, m ≠ n → s'.nodeD m = s.nodeD m := by
+    intro m hm
+    rw [hD, if_neg (fun h => hm h.1.symm)]
+  refine ⟨by rw [hn]; simp, ?_, ?_, ?_, ?_, ?_, ?_, ?_, ?_, ?_, ?_, ?_, ?_, ?_, hv, hb, hs, hc, hsc⟩
+  any_goals (intro m hm; rw [hne m hm])
+  all_goals intro m
+  all_goals rw [hD]
+  all_goals split
+  all_goals first | rfl | skip
+  · exact (hf _).1
+  · exact (hf _).2.1
+  · exact (hf _).2.2.1
+  · exact (hf _).2.2.2.1
+  · exact (hf _).2.2.2.2.1
+  · exact (hf _).2.2.2.2.2.1
+  · exact (hf _).2.2.2.2.2.2.1
+  · exact (hf _).2.2.2.2.2.2.2.1
+  · intro h; simpa [Node.inRch, (hf _).2.2.2.2.2.2.2.2] using h
+  · exact id
+
+theorem StepFrame.started (n : Nat) (s : State) : StepFrame n s (started n s) := by
+  refine StepFrame.modify n s _ (fun x => { x with recomputedAt := s.stabNum }) ?_ rfl rfl rfl rfl rfl rfl
+  exact fun _ => ⟨rfl, rfl, rfl, rfl, rfl, rfl, rfl, rfl, rfl⟩
+
+theorem StepFrame.logged (n : Nat) (es : List Event) (s : State) : StepFrame n s (logged es s) := by
+  constructor <;> intros <;> first | rfl | assumption
+
+theorem StepFrame.setValue (n : Nat) (v : Option Val) (s : State) : StepFrame n s (setValue n v s) := by
+  refine StepFrame.modify n s _ (fun x => { x with value := v }) ?_ rfl rfl rfl rfl rfl rfl
+  exact fun _ => ⟨rfl, rfl, rfl, rfl, rfl, rfl, rfl, rfl, rfl⟩
+
+theorem StepFrame.touched (n : Nat) (s : State) : StepFrame n s (touched n s) := by
+  refine StepFrame.modify n s _ (fun x => { x with changedAt := s.stabNum }) ?_ rfl rfl rfl rfl rfl rfl
+  exact fun _ => ⟨rfl, rfl, rfl, rfl, rfl, rfl, rfl, rfl, rfl⟩
+
+theorem StepFrame.setWithOld (n : Nat) (new σ' : Val) (s : State) : StepFrame n s (setWithOld n new σ' s) := by
+  refine StepFrame.modify n s _ (fun y => { y with value := some new, oldState := σ' }) ?_ rfl rfl rfl rfl rfl rfl
+  exact fun _ => ⟨rfl, rfl, rfl, rfl, rfl, rfl, rfl, rfl, rfl⟩
+
+
+/-! ## what a recompute step establishes -/
+
+/-- outcome of a successful recompute step of node `n` that computed value `v`, new closure state
+`σ`, logged `evs` for the user function, and returned `r` -/
+structure StepPost (n : Nat) (v σ : Val) (evs : List Event) (s s' : State) : Prop where
+  frame : StepFrame n s s'
+  value : (s'.nodeD n).value = some v
+  recomputedAt : (s'.nodeD n).recomputedAt = s.stabNum
+  changedAt : (s'.nodeD n).changedAt = s.stabNum ∨ (s'.nodeD n).changedAt = (s.nodeD n).changedAt
+  oldState : (s'.nodeD n).oldState = σ
+  recomputed : s'.counters.recomputed = s.counters.recomputed + 1
+  log : ∃ tail, s'.log = tail ++ evs ++ s.log ∧ ∀ e, e ∈ tail → Noise e
+  pc : s'.panicCountdown = none
+
+theorem cutoffLog_noise (env : Env) (t : State) (n : Nat) (old new : Val) :
+    ∀ e, e ∈ cutoffLog env t n old new → Noise e := by
+  intro e he
+  unfold cutoffLog at he
+  split at he
+  · rw [List.mem_singleton] at he; rw [he]; trivial
+  · rw [List.mem_singleton] at he; rw [he]; trivial
+  · cases he
+
+theorem mcvLog_noise (env : Env) (t : State) (n : Nat) (new : Val) :
+    ∀ e, e ∈ mcvLog env t n new → Noise e := by
+  intro e he
+  unfold mcvLog at he
+  split at he
+  · cases he
+  · exact cutoffLog_noise _ _ _ _ _ e he
+
+/-- the explicit part of a step: `recomputedAt` stamped, user-function events logged, cutoff events
+`L` logged, value (and closure state) stored, and, if `stamp`, `changedAt` stamped and the `changed`
+counter bumped; followed by `Quiet` work -/
+theorem stepPost_of_quiet (n : Nat) (v σ : Val) (evs L : List Event) (s S s' : State) (nd : Node)
+    (stamp : Bool)
+    (hn : s.nodes[n]? = some nd) (hp : s.panicCountdown = none)
+    (hL : ∀ e, e ∈ L → Noise e)
+    (hS : S = (if stamp then touched n else id)
+      (setWithOld n v σ (logged L (logged evs (started n s)))))
+    (q : Quiet S s') : StepPost n v σ evs s s' := by
+  have hlt := lt_of_some hn
+  have hD := nodeD_of_some hn
+  have fr0 : StepFrame n s (setWithOld n v σ (logged L (logged evs (started n s)))) :=
+    ((StepFrame.started n s).trans ((StepFrame.logged n evs _).trans (StepFrame.logged n L _))).trans
+      (StepFrame.setWithOld n v σ _)
+  have nd0 : (setWithOld n v σ (logged L (logged evs (started n s)))).nodeD n =
+      { nd with recomputedAt := s.stabNum, value := some v, oldState := σ } := by
+    have h1 := nodeD_modify (logged L (logged evs (started n s))) n n
+      (fun y => { y with value := some v, oldState := σ })
+    have h2 : (logged L (logged evs (started n s))).nodeD n = (started n s).nodeD n := rfl
+    have hsz : (logged L (logged evs (started n s))).nodes.size = s.nodes.size := by
+      simp [logged, started]
+    rw [if_pos ⟨rfl, by rw [hsz]; exact hlt⟩, h2, started_nodeD, if_pos ⟨rfl, hlt⟩, hD] at h1
+    exact h1
+  cases stamp with
+  | false =>
+    simp only [Bool.false_eq_true, if_false, id] at hS
+    subst hS
+    have hq := q.node n
+    rw [nd0] at hq
+    refine ⟨fr0.trans (q.toFrame n), hq.value, hq.recomputedAt, Or.inr ?_, hq.oldState, ?_, ?_, ?_⟩
+    · rw [hq.changedAt, hD]
+    · rw [q.counters]; rfl
+    · obtain ⟨tail, e1, e2⟩ := q.log
+      refine ⟨tail ++ L, ?_, ?_⟩
+      · rw [e1]; simp [setWithOld, logged, started]
+      · intro e he
+        rcases List.mem_append.1 he with h | h
+        · exact e2 e h
+        · exact hL e h
+    · exact q.pc hp
+  | true =>
+    simp only [if_true] at hS
+    subst hS
+    have hq := q.node n
+    have hsz : (setWithOld n v σ (logged L (logged evs (started n s)))).nodes.size = s.nodes.size := by
+      simp [setWithOld, logged, started]
+    rw [touched_nodeD, if_pos ⟨rfl, by rw [hsz]; exact hlt⟩, nd0] at hq
+    refine ⟨(fr0.trans (StepFrame.touched n _)).trans (q.toFrame n), hq.value, hq.recomputedAt,
+      Or.inl ?_, hq.oldState, ?_, ?_, ?_⟩
+    · rw [hq.changedAt]; rfl
+    · rw [q.counters]; rfl
+    · obtain ⟨tail, e1, e2⟩ := q.log
+      refine ⟨tail ++ L, ?_, ?_⟩
+      · rw [e1]; simp [touched, setWithOld, logged, started]
+      · intro e he
+        rcases List.mem_append.1 he with h | h
+        · exact e2 e h
+        · exact hL e h
+    · exact q.pc hp
+
+
+theorem setValue_eq_setWithOld (n : Nat) (v : Val) (t : State) (x : Node) (h : t.nodes[n]? = some x) :
+    setValue n (some v) t = setWithOld n v x.oldState t := by
+  have : (t.nodes.modify n fun y => { y with value := some v }) =
+      t.nodes.modify n fun y => { y with value := some v, oldState := x.oldState } := by
+    apply Array.ext_getElem?
+    intro i
+    simp only [Array.getElem?_modify]
+    by_cases hi : n = i
+    · subst hi; simp [h]
+    · simp [hi]
+  simp only [setValue, setWithOld, this]
+
+/-- a successful `maybe_change_value n v` right after the start of `recompute_one n` -/
+theorem mcv_stepPost (env : Env) (fuel n : Nat) (v : Val) (evs : List Event) (s s' : State)
+    (nd : Node) (r : Option Nat)
+    (hn : s.nodes[n]? = some nd) (hp : s.panicCountdown = none)
+    (h : (maybeChangeValue env fuel n v).run.run (logged evs (started n s)) = (.ok r, s')) :
+    StepPost n v nd.oldState evs s s' := by
+  have hn0 : (logged evs (started n s)).nodes[n]? = some { nd with recomputedAt := s.stabNum } :=
+    started_getElem? n s nd hn
+  have hp0 : (logged evs (started n s)).panicCountdown = none := hp
+  have hnL : (logged (mcvLog env (logged evs (started n s)) n v) (logged evs (started n s))).nodes[n]?
+      = some { nd with recomputedAt := s.stabNum } := hn0
+  have hset := setValue_eq_setWithOld n v _ _ hnL
+  cases hd : mcvChanges env (logged evs (started n s)) n v with
+  | none => rw [mcv_run' env fuel n v _ _ hn0 hp0, hd] at h; cases h
+  | some d =>
+    cases d with
+    | false =>
+      rw [mcv_suppress env fuel n v _ _ hn0 hp0 hd] at h
+      cases h
+      exact stepPost_of_quiet n v nd.oldState evs (mcvLog env (logged evs (started n s)) n v) s _ _ nd false hn hp
+        (mcvLog_noise _ _ _ _) hset
+        (Quiet.refl _)
+    | true =>
+      have q := (mcv_propagate env fuel n v _ s' _ r hn0 hp0 hd h).1
+      refine stepPost_of_quiet n v nd.oldState evs (mcvLog env (logged evs (started n s)) n v) s _ s' nd true hn hp
+        (mcvLog_noise _ _ _ _) ?_ q
+      simp only [changedState, if_true]
+      rw [hset]
+
+
+/-- a successful `maybe_change_value_manual n none did true` right after a MapWithOld machine ran -/
+theorem mcvm_stepPost (env : Env) (fuel n : Nat) (new σ' : Val) (did : Bool) (evs : List Event)
+    (s s' : State) (nd : Node) (r : Option Nat)
+    (hn : s.nodes[n]? = some nd) (hp : s.panicCountdown = none)
+    (h : (maybeChangeValueManual env fuel n none did true).run.run
+      (setWithOld n new σ' (logged evs (started n s))) = (.ok r, s')) :
+    StepPost n new σ' evs s s' := by
+  cases did with
+  | false =>
+    rw [run_mcvm_false] at h
+    cases h
+    exact stepPost_of_quiet n new σ' evs [] s _ _ nd false hn hp (fun _ h => by cases h) rfl
+      (Quiet.refl _)
+  | true =>
+    have q := mcvm_true_quiet _ _ _ _ _ _ _ _ h
+    exact stepPost_of_quiet n new σ' evs [] s _ s' nd true hn hp (fun _ h => by cases h) rfl q
+
+/-! ## staleness after a step -/
+
+theorem children_congr (n : Nat) (s s' : State) (hk : (s'.nodeD n).kind? = (s.nodeD n).kind?)
+    (hb : s'.binds = s.binds) (hne : ∀ e, (s.nodeD n).kind? ≠ some (.expert e)) :
+    s'.children n = s.children n := by
+  unfold State.children
+  rw [hk, hb]
+  cases hk' : (s.nodeD n).kind? with
+  | none => rfl
+  | some k =>
+    cases k <;> try rfl
+    exact absurd hk' (hne _)
+
+/-- after a step that stamped `recomputedAt n := stabNum` and whose frame is `StepFrame n`, node `n`
+is not stale, provided nothing it depends on claims to have changed in the future -/
+theorem not_stale_after (n : Nat) (s s' : State) (fr : StepFrame n s s')
+    (hrec : (s'.nodeD n).recomputedAt = s.stabNum) (h0 : 0 ≤ s.stabNum)
+    (hself : (s'.nodeD n).changedAt ≤ s.stabNum)
+    (hne : ∀ e, (s.nodeD n).kind ≠ .expert e)
+    (hch : ∀ c, c ∈ s.children n → (s.nodeD c).changedAt ≤ s.stabNum)
+    (hvar : ∀ c vc, (s.nodeD n).kind = .var c → s.vars[c]? = some vc → vc.setAt ≤ s.stabNum) :
+    s'.isStale n = false := by
+  have hk : (s'.nodeD n).kind? = (s.nodeD n).kind? := by
+    simp [Node.kind?, fr.kind n, fr.valid n]
+  have hne' : ∀ e, (s.nodeD n).kind? ≠ some (.expert e) := by
+    intro e h
+    simp only [Node.kind?] at h
+    split at h
+    · exact hne e (Option.some.inj h)
+    · cases h
+  have hcs := children_congr n s s' hk fr.binds hne'
+  have hany : ((s'.children n).any fun c => (s'.nodeD c).changedAt > (s'.nodeD n).recomputedAt) = false := by
+    rw [List.any_eq_false]
+    intro c hc
+    rw [hcs] at hc
+    rw [hrec]
+    have : (s'.nodeD c).changedAt ≤ s.stabNum := by
+      by_cases hcn : c = n
+      · rw [hcn]; exact hself
+      · rw [fr.changedAt c hcn]; exact hch c hc
+    simpa using this
+  have hr1 : ((s'.nodeD n).recomputedAt == -1) = false := by
+    rw [hrec]
+    simp only [beq_eq_false_iff_ne, ne_eq]
+    omega
+  unfold State.isStale
+  simp only [hany, hr1, Bool.or_false, hk]
+  cases hk' : (s.nodeD n).kind? with
+  | none => rfl
+  | some k =>
+    have hkk : (s.nodeD n).kind = k := by
+      simp only [Node.kind?] at hk'
+      split at hk'
+      · cases hk'; rfl
+      · cases hk'
+    cases k <;> try rfl
+    · rename_i c
+      simp only [fr.vars]
+      cases hvc : s.vars[c]? with
+      | none => rfl
+      | some vc =>
+        have := hvar c vc hkk hvc
+        rw [hrec]
+        simpa using this
+    · exact absurd hk' (hne' _)
+
+
+/-! ## per kind: what a successful `recompute_one` establishes -/
+
+theorem recomputeOne_map_post (env : Env) (fuel n : Nat) (s s' : State) (nd : Node) (f : Nat)
+    (args : List Nat) (vals : List Val) (r : Option Nat)
+    (hn : s.nodes[n]? = some nd) (hv : nd.valid = true) (hk : nd.kind = .map f args)
+    (hf : f < fnZip) (hvals : valuesOf env s args = some vals) (heff : env.fnEff f vals = [])
+    (hp : s.panicCountdown = none)
+    (h : (recomputeOne env fuel n).run.run s = (.ok r, s')) :
+    StepPost n (env.fn f vals) nd.oldState [.inv s!"f{f}" n vals (env.fn f vals).render] s s' := by
+  rw [recomputeOne_map_run env fuel n s nd f args vals hn hv hk hf hvals heff hp] at h
+  exact mcv_stepPost env fuel n _ _ s s' nd r hn hp h
+
+theorem recomputeOne_mapBuiltin_post (env : Env) (fuel n : Nat) (s s' : State) (nd : Node) (f : Nat)
+    (args : List Nat) (vals : List Val) (r : Option Nat)
+    (hn : s.nodes[n]? = some nd) (hv : nd.valid = true) (hk : nd.kind = .map f args)
+    (hf : ¬ f < fnZip) (hvals : valuesOf env s args = some vals) (hp : s.panicCountdown = none)
+    (h : (recomputeOne env fuel n).run.run s = (.ok r, s')) :
+    StepPost n (env.fn f vals) nd.oldState [] s s' := by
+  rw [recomputeOne_mapBuiltin_run env fuel n s nd f args vals hn hv hk hf hvals] at h
+  exact mcv_stepPost env fuel n _ [] s s' nd r hn hp h
+
+theorem recomputeOne_var_post (env : Env) (fuel n : Nat) (s s' : State) (nd : Node) (c : Nat)
+    (vc : VarCell) (r : Option Nat)
+    (hn : s.nodes[n]? = some nd) (hv : nd.valid = true) (hk : nd.kind = .var c)
+    (hc : s.vars[c]? = some vc) (hp : s.panicCountdown = none)
+    (h : (recomputeOne env fuel n).run.run s = (.ok r, s')) :
+    StepPost n vc.value nd.oldState [] s s' := by
+  rw [recomputeOne_var_run env fuel n s nd c vc hn hv hk hc] at h
+  exact mcv_stepPost env fuel n _ [] s s' nd r hn hp h
+
+theorem recomputeOne_const_post (env : Env) (fuel n : Nat) (s s' : State) (nd : Node) (v : Val)
+    (r : Option Nat)
+    (hn : s.nodes[n]? = some nd) (hv : nd.valid = true) (hk : nd.kind = .const v)
+    (hp : s.panicCountdown = none)
+    (h : (recomputeOne env fuel n).run.run s = (.ok r, s')) :
+    StepPost n v nd.oldState [] s s' := by
+  rw [recomputeOne_const_run env fuel n s nd v hn hv hk] at h
+  exact mcv_stepPost env fuel n _ [] s s' nd r hn hp h
+
+theorem recomputeOne_fold_post (env : Env) (fuel n : Nat) (s s' : State) (nd : Node) (f : Nat)
+    (init : Val) (cs : List Nat) (vals : List Val) (r : Option Nat)
+    (hn : s.nodes[n]? = some nd) (hv : nd.valid = true) (hk : nd.kind = .fold f init cs)
+    (hvals : valuesOf env s cs = some vals) (hp : s.panicCountdown = none)
+    (h : (recomputeOne env fuel n).run.run s = (.ok r, s')) :
+    StepPost n (vals.foldl (env.foldStep f) init) nd.oldState
+      [.inv s!"fold{f}" n vals (vals.foldl (env.foldStep f) init).render] s s' := by
+  rw [recomputeOne_fold_run env fuel n s nd f init cs vals hn hv hk hvals hp] at h
+  exact mcv_stepPost env fuel n _ _ s s' nd r hn hp h
+
+theorem recomputeOne_mapWithOld_post (env : Env) (fuel n : Nat) (s s' : State) (nd : Node) (g i : Nat)
+    (x σ' new : Val) (did : Bool) (r : Option Nat)
+    (hn : s.nodes[n]? = some nd) (hv : nd.valid = true) (hk : nd.kind = .mapWithOld g i)
+    (hx : s.value env i = some x) (hp : s.panicCountdown = none)
+    (hw : env.withOld g nd.oldState nd.value x = (σ', new, did))
+    (h : (recomputeOne env fuel n).run.run s = (.ok r, s')) :
+    StepPost n new σ'
+      [.inv s!"g{g}" n ((match nd.value with | some o => [o] | none => []) ++ [x])
+        s!"{new.render},{did}"] s s' := by
+  rw [recomputeOne_mapWithOld_run env fuel n s nd g i x σ' new did hn hv hk hx hp hw] at h
+  exact mcvm_stepPost env fuel n new σ' did _ s s' nd r hn hp h
+
+theorem recomputeOne_bindMain_post (env : Env) (fuel n : Nat) (s s' : State) (nd : Node) (b lc r0 : Nat)
+    (br : BindRec) (rn : Node) (v : Val) (r : Option Nat)
+    (hn : s.nodes[n]? = some nd) (hv : nd.valid = true) (hk : nd.kind = .bindMain b lc)
+    (hb : s.binds[b]? = some br) (hr : br.rhs = some r0) (hrn : s.nodes[r0]? = some rn)
+    (hrv : rn.valid = true) (hval : s.value env r0 = some v) (hp : s.panicCountdown = none)
+    (h : (recomputeOne env fuel n).run.run s = (.ok r, s')) :
+    StepPost n v nd.oldState [] s s' := by
+  rw [recomputeOne_bindMain_run env fuel n s nd b lc r0 br rn v hn hv hk hb hr hrn hrv hval] at h
+  exact mcv_stepPost env fuel n _ [] s s' nd r hn hp h
+
+/-- the user-function event of a map node is not one of the notification events -/
+theorem inv_f_not_noise (f n : Nat) (vals : List Val) (res : String) :
+    ¬ Noise (.inv s!"f{f}" n vals res) := by
+  intro h
+  have h' : s!"f{f}" = "cb" := h
+  have := congrArg String.toList h'
+  simp at this
+  have h2 : (toString "f").toList = ['f'] := by decide
+  rw [h2] at this
+  simp at this
+
+/-- values of the arguments, read in the post-state of a step of `n`, when arguments are earlier
+nodes than `n` and MapRef inputs point backward -/
+theorem valuesOf_after (env : Env) (n : Nat) (s s' : State) (fr : StepFrame n s s') (hwf : MapRefsBack s)
+    (args : List Nat) (hlt : ∀ a, a ∈ args → a < n) (hn : n < s.nodes.size) :
+    valuesOf env s' args = valuesOf env s args := by
+  apply valuesOf_congr
+  intro a ha
+  apply value_congr_below env s s' hwf fr.size a (by have := hlt a ha; omega)
+  intro m hm
+  have hmn : m ≠ n := by have := hlt a ha; omega
+  simp only [valueCore, fr.kind m, fr.valid m, fr.value m hmn]
+
+
+/-! ## the treated kinds in one relation -/
+
+/-- `Computes env s n nd v σ evs`: node `n` (record `nd`, in state `s`) is of one of the kinds treated
+here and, from the values its inputs have in `s`, its recompute function yields value `v`, closure
+state `σ` (only MapWithOld has one; otherwise the old `nd.oldState`) and logs the user-function events
+`evs`.  Kinds: `map` with a user function without effects, the built-in `map`s (zip, first), `var`,
+`const`, `fold`, `map_with_old`, `bind_main` whose rhs is valid and has a value. -/
+inductive Computes (env : Env) (s : State) (n : Nat) (nd : Node) : Val → Val → List Event → Prop
+  | map (f : Nat) (args : List Nat) (vals : List Val) :
+      nd.kind = .map f args → f < fnZip → valuesOf env s args = some vals → env.fnEff f vals = [] →
+      Computes env s n nd (env.fn f vals) nd.oldState [.inv s!"f{f}" n vals (env.fn f vals).render]
+  | mapBuiltin (f : Nat) (args : List Nat) (vals : List Val) :
+      nd.kind = .map f args → ¬ f < fnZip → valuesOf env s args = some vals →
+      Computes env s n nd (env.fn f vals) nd.oldState []
+  | var (c : Nat) (vc : VarCell) :
+      nd.kind = .var c → s.vars[c]? = some vc → Computes env s n nd vc.value nd.oldState []
+  | const (v : Val) : nd.kind = .const v → Computes env s n nd v nd.oldState []
+  | fold (f : Nat) (init : Val) (cs : List Nat) (vals : List Val) :
+      nd.kind = .fold f init cs → valuesOf env s cs = some vals →
+      Computes env s n nd (vals.foldl (env.foldStep f) init) nd.oldState
+        [.inv s!"fold{f}" n vals (vals.foldl (env.foldStep f) init).render]
+  | mapWithOld (g i : Nat) (x σ' new : Val) (did : Bool) :
+      nd.kind = .mapWithOld g i → s.value env i = some x →
+      env.withOld g nd.oldState nd.value x = (σ', new, did) →
+      Computes env s n nd new σ'
+        [.inv s!"g{g}" n ((match nd.value with | some o => [o] | none => []) ++ [x])
+          s!"{new.render},{did}"]
+  | bindMain (b lc r0 : Nat) (br : BindRec) (rn : Node) (v : Val) :
+      nd.kind = .bindMain b lc → s.binds[b]? = some br → br.rhs = some r0 →
+      s.nodes[r0]? = some rn → rn.valid = true → s.value env r0 = some v →
+      Computes env s n nd v nd.oldState []
+
+/-- C01/C02 in one statement: a successful step on a valid node of a treated kind stores what
+`Computes` says, stamps the node, and respects the frame -/
+theorem recomputeOne_post (env : Env) (fuel n : Nat) (s s' : State) (nd : Node) (v σ : Val)
+    (evs : List Event) (r : Option Nat)
+    (hn : s.nodes[n]? = some nd) (hv : nd.valid = true) (hp : s.panicCountdown = none)
+    (hc : Computes env s n nd v σ evs)
+    (h : (recomputeOne env fuel n).run.run s = (.ok r, s')) :
+    StepPost n v σ evs s s' := by
+  cases hc with
+  | map f args vals hk hf hvals heff =>
+    exact recomputeOne_map_post env fuel n s s' nd f args vals r hn hv hk hf hvals heff hp h
+  | mapBuiltin f args vals hk hf hvals =>
+    exact recomputeOne_mapBuiltin_post env fuel n s s' nd f args vals r hn hv hk hf hvals hp h
+  | var c vc hk hvc => exact recomputeOne_var_post env fuel n s s' nd c vc r hn hv hk hvc hp h
+  | const v hk => exact recomputeOne_const_post env fuel n s s' nd v r hn hv hk hp h
+  | fold f init cs vals hk hvals =>
+    exact recomputeOne_fold_post env fuel n s s' nd f init cs vals r hn hv hk hvals hp h
+  | mapWithOld g i x σ' new did hk hx hw =>
+    exact recomputeOne_mapWithOld_post env fuel n s s' nd g i x σ v did r hn hv hk hx hp hw h
+  | bindMain b lc r0 br rn v hk hb hr hrn hrv hval =>
+    exact recomputeOne_bindMain_post env fuel n s s' nd b lc r0 br rn v r hn hv hk hb hr hrn hrv hval hp h
+
+/-- `State.value` of a node that is not a (valid) MapRef is its `value` field -/
+theorem value_plain (env : Env) (s : State) (n : Nat) (h : ∀ p i, (s.nodeD n).kind ≠ .mapRef p i) :
+    s.value env n = (s.nodeD n).value := by
+  unfold State.value
+  rw [valueWith_succ']
+  unfold valueStep' valueCore
+  split
+  · rename_i p i _ heq
+    have := congrArg Prod.fst heq
+    exact absurd this (h p i)
+  · rename_i heq
+    have := congrArg (fun x => x.2.2) heq
+    exact this.symm
+
+theorem Computes.not_mapRef {env : Env} {s : State} {n : Nat} {nd : Node} {v σ : Val}
+    {evs : List Event} (hc : Computes env s n nd v σ evs) : ∀ p i, nd.kind ≠ .mapRef p i := by
+  intro p i h
+  cases hc <;> simp_all
+
+theorem Computes.not_expert {env : Env} {s : State} {n : Nat} {nd : Node} {v σ : Val}
+    {evs : List Event} (hc : Computes env s n nd v σ evs) : ∀ e, nd.kind ≠ .expert e := by
+  intro e h
+  cases hc <;> simp_all
+
+
+/-! ## `recomputeOne` on an invalid or missing node -/
+
+theorem recomputeOne_invalid_run (env : Env) (fuel n : Nat) (s : State) (nd : Node)
+    (hn : s.nodes[n]? = some nd) (hv : nd.valid = false) :
+    (recomputeOne env fuel n).run.run s =
+      (.error (.site "node:recompute_one:invalid-node"), started n s) := by
+  have hk? : ({ nd with recomputedAt := s.stabNum } : Node).kind? = none := by
+    simp [Node.kind?, hv]
+  have hn' := started_getElem? n s nd hn
+  unfold recomputeOne
+  simp only [run_bind_get]
+  cases hd : s.cfg.debug
+  all_goals
+    simp only [started, hd, Bool.false_eq_true, if_false, if_true, run_bind_modify,
+      run_bind_bumpCounter, run_bind_get, run_bind_modNode] at hn' ⊢
+    rw [run_bind_ok (run_getNode_some hn'), hk?]
+    rfl
+
+theorem recomputeOne_missing_run (env : Env) (fuel n : Nat) (s : State)
+    (hn : s.nodes[n]? = none) :
+    (recomputeOne env fuel n).run.run s =
+      (.error (.site "model:no-such-node"), started n s) := by
+  have hn' : (started n s).nodes[n]? = none := by
+    simp [started, Array.getElem?_modify, hn]
+  unfold recomputeOne
+  simp only [run_bind_get]
+  cases hd : s.cfg.debug
+  all_goals
+    simp only [started, hd, Bool.false_eq_true, if_false, if_true, run_bind_modify,
+      run_bind_bumpCounter, run_bind_get, run_bind_modNode] at hn' ⊢
+    rw [run_bind, run_getNode, hn']
+
+
+/-! ## glue for the C06 statements -/
+
+theorem cutoffVerdict_of_run (env : Env) (n : Nat) (old new : Val) (s : State) (nd : Node) (b : Bool)
+    (hn : s.nodes[n]? = some nd) (hp : s.panicCountdown = none)
+    (h : ((shouldCutoff env n old new).run.run s).1 = .ok b) :
+    cutoffVerdict env s n old new = some b := by
+  rw [shouldCutoff_run env n old new s nd hn hp] at h
+  cases hv : cutoffVerdict env s n old new with
+  | none => rw [hv] at h; cases h
+  | some c => rw [hv] at h; cases h; rfl
+
+theorem mcvChanges_some (env : Env) (n : Nat) (old new : Val) (s : State) (nd : Node) (b : Bool)
+    (hn : s.nodes[n]? = some nd) (hv : nd.value = some old) (hp : s.panicCountdown = none)
+    (h : ((shouldCutoff env n old new).run.run s).1 = .ok b) :
+    mcvChanges env s n new = some (!b) ∧ mcvLog env s n new = cutoffLog env s n old new := by
+  unfold mcvChanges mcvLog
+  rw [nodeD_of_some hn, hv]
+  simp only [cutoffVerdict_of_run env n old new s nd b hn hp h, Option.map_some, and_self]
+
+theorem mcvChanges_none (env : Env) (n : Nat) (new : Val) (s : State) (nd : Node)
+    (hn : s.nodes[n]? = some nd) (hv : nd.value = none) :
+    mcvChanges env s n new = some true ∧ mcvLog env s n new = [] := by
+  unfold mcvChanges mcvLog
+  rw [nodeD_of_some hn, hv]
+  exact ⟨rfl, rfl⟩
+
+/-- the explicit state in which parents are notified, field by field -/
+theorem changedState_facts (env : Env) (n : Nat) (new : Val) (s : State) (nd : Node)
+    (hn : s.nodes[n]? = some nd) :
+    StepFrame n s (changedState env n new s) ∧
+    (changedState env n new s).nodeD n = { nd with value := some new, changedAt := s.stabNum } ∧
+    (changedState env n new s).counters = { s.counters with changed := s.counters.changed + 1 } ∧
+    (changedState env n new s).log = mcvLog env s n new ++ s.log ∧
+    (changedState env n new s).rch = s.rch ∧
+    (changedState env n new s).panicCountdown = s.panicCountdown := by
+  have hlt := lt_of_some hn
+  refine ⟨((StepFrame.logged n _ s).trans (StepFrame.setValue n _ _)).trans (StepFrame.touched n _),
+    ?_, rfl, rfl, rfl, rfl⟩
+  unfold changedState
+  have hsz : (setValue n (some new) (logged (mcvLog env s n new) s)).nodes.size = s.nodes.size := by
+    simp [setValue, logged]
+  rw [touched_nodeD, if_pos ⟨rfl, by rw [hsz]; exact hlt⟩, setValue_nodeD,
+    if_pos ⟨rfl, by exact hlt⟩]
+  have : (logged (mcvLog env s n new) s).nodeD n = nd := nodeD_of_some hn
+  rw [this]
+  rfl
+
+/-- field-level reading of `mcv_propagate` -/
+theorem mcv_propagate_facts (env : Env) (fuel n : Nat) (new : Val) (s s' : State) (nd : Node)
+    (r : Option Nat)
+    (hn : s.nodes[n]? = some nd) (hp : s.panicCountdown = none)
+    (hd : mcvChanges env s n new = some true)
+    (h : (maybeChangeValue env fuel n new).run.run s = (.ok r, s')) :
+    StepFrame n s s' ∧
+    (s'.nodeD n).value = some new ∧ (s'.nodeD n).changedAt = s.stabNum ∧
+    (s'.nodeD n).recomputedAt = nd.recomputedAt ∧
+    s'.counters = { s.counters with changed := s.counters.changed + 1 } ∧
+    (∃ tail, s'.log = tail ++ mcvLog env s n new ++ s.log ∧ ∀ e, e ∈ tail → Noise e) ∧
+    s'.panicCountdown = none := by
+  obtain ⟨q, _⟩ := mcv_propagate env fuel n new s s' nd r hn hp hd h
+  obtain ⟨fr, hD, hc, hl, _, hpc⟩ := changedState_facts env n new s nd hn
+  have hq := q.node n
+  rw [hD] at hq
+  refine ⟨fr.trans (q.toFrame n), hq.value, hq.changedAt, hq.recomputedAt, by rw [q.counters, hc],
+    ?_, q.pc (by rw [hpc]; exact hp)⟩
+  obtain ⟨tail, e1, e2⟩ := q.log
+  exact ⟨tail, by rw [e1, hl, List.append_assoc], e2⟩
+
+
+/-! ## the frame of a cutoff check -/
+
+/-- `s'` differs from `s` at most in `log` and `panicCountdown` -/
+def OnlyLogPc (s s' : State) : Prop :=
+  s' = { s with log := s'.log, panicCountdown := s'.panicCountdown }
+
+instance : PreOrd OnlyLogPc where
+  refl _ := rfl
+  trans := by
+    intro a b c h1 h2
+    unfold OnlyLogPc at *
+    rw [h2, h1]
+
+theorem Pres.shouldCutoff_onlyLogPc (env : Env) (n : Nat) (o v : Val) :
+    Pres OnlyLogPc (Engine.shouldCutoff env n o v) := by
+  unfold Engine.shouldCutoff Engine.tick Engine.logEv
+  qpres
+  all_goals (apply Pres.modify; intro s; rfl)
+
+
+/-! ## "the call returned", as a decidable test (for the non-vacuity examples) -/
+
+/-- the call returned (did not panic) -/
+def returned {α} (x : Except Panic α × State) : Bool := match x.1 with | .ok _ => true | .error _ => false
+
+theorem returned_iff {α} (x : Except Panic α × State) : returned x = true ↔ ∃ r s', x = (.ok r, s') := by
+  rcases x with ⟨_ | r, s'⟩
+  · simp [returned]
+  · simp [returned]
+
+
+/-! ## example environment and states (non-vacuity witnesses used by the property files) -/
+
+/-- functions: `f0` = sum of the integer views, others = first argument; cutoff `c0` = "equal integer
+views mod 2"; projections and fold steps simple arithmetic -/
+def exEnv : Env where
+  fn f vals := if f = 0 then .int (vals.foldl (fun a v => a + v.toInt) 0) else vals.headD .unit
+  fnEff _ _ := []
+  foldStep _ a v := .int (a.toInt + v.toInt)
+  proj _ v := .int (v.toInt % 2)
+  withOld _ σ old v := (.int (σ.toInt + 1), .int (v.toInt + (old.getD .unit).toInt), true)
+  cutoff _ a b := a.toInt % 2 == b.toInt % 2
+  body _ _ := { instrs := [], ret := .abs 0 }
+  handler _ _ := []
+  expertFn _ _ _ := .unit
+
+/-- round 1 of a small graph.  node 0: var cell 0 (old value 1, the cell now holds 4), parents 1, 2, 3;
+node 1: `map f0 [0]`; node 2: `fold f0 10 [0, 0]`; node 3: `map_ref p0 0`; node 4: `map_with_old g0 0`;
+node 5: constant 7; node 6: `bind_main` of bind 0 whose rhs is node 5.  All necessary (observed),
+heights consistent, nothing in the heap, limit 8. -/
+def exS : State :=
+  { State.init 8 with
+    nodes := #[
+      { kind := .var 0, createdIn := .top, value := some (.int 1), recomputedAt := 0, changedAt := 0,
+        height := 0, parents := [(1, 0), (2, 0), (3, 0), (4, 0)], cutoff := .never },
+      { kind := .map 0 [0], createdIn := .top, value := some (.int 1), recomputedAt := 0, changedAt := 0,
+        height := 1, observers := [0], cutoff := .fn 0 },
+      { kind := .fold 0 (.int 10) [0, 0], createdIn := .top, value := some (.int 12), recomputedAt := 0,
+        changedAt := 0, height := 1, observers := [1] },
+      { kind := .mapRef 0 0, createdIn := .top, recomputedAt := 0, changedAt := 0, height := 1,
+        observers := [2], didChange := false },
+      { kind := .mapWithOld 0 0, createdIn := .top, value := some (.int 1), recomputedAt := 0,
+        changedAt := 0, height := 1, observers := [3], oldState := .int 0 },
+      { kind := .const (.int 7), createdIn := .top, value := some (.int 7), recomputedAt := 0,
+        changedAt := 0, height := 0, parents := [(6, 1)], cutoff := .always },
+      { kind := .bindMain 0 0, createdIn := .top, recomputedAt := -1, height := 2, observers := [4],
+        cutoff := .dependOn 5 }],
+    vars := #[{ value := .int 4, setAt := 1, node := 0 }],
+    binds := #[{ lhs := 0, body := 0, lhsChange := 0, main := 6, rhs := some 5 }],
+    stabNum := 1, status := .stabilising }
+
+
 end IncrVerif.Proofs.Step
